@@ -478,7 +478,7 @@ fn check(maps: bool, case: &Case) -> Verdict {
             mutations += events.len();
             for (ri, rem) in obs.remotes.iter().enumerate() {
                 check_order(&mut v, ri, MAP_LANES[li], rem, quiescent);
-                let s = check_map_sync(&mut v, ri, li, rem, &events);
+                let s = check_map_sync(&mut v, ri, li, rem, &events, &obs.quiescent_marks);
                 st.syncs_completed += s.syncs_completed;
                 st.syncs_racing += s.syncs_racing;
                 st.implicit += s.without_link;
@@ -489,7 +489,7 @@ fn check(maps: bool, case: &Case) -> Verdict {
                     lane_backlog = true;
                 }
                 let mut tail = Verdict::new();
-                let o = check_map_lane(&mut tail, ri, li, rem, &events, &final_map, quiescent);
+                let o = check_map_lane(&mut tail, ri, li, rem, &events, &final_map, quiescent, &obs.quiescent_marks);
                 for f in tail.failures {
                     v.fail(format!("tail:{}", f.sig), f.detail);
                 }
